@@ -128,7 +128,10 @@ class PathInterp(sym.Interp):
             if self.decide(v.some):
                 return v.payload
             raise sym.Return(OptVal(sp.false, None))
-        return sym.Interp.ev_Try(self, n)
+        # (not re-evaluating the operand: a second evaluation would repeat its user calls)
+        if isinstance(v, sym.Variant) and v.name in ("Ok", "Some") and len(v.args) == 1:
+            return v.args[0]
+        return v
 
     def ev_Let(self, n):
         v = self.ev(n["init"])
